@@ -38,6 +38,18 @@ Proof.
     destruct o2 as [b|b]; [|exists (Thr b), h2; intros; rewrite E1; simpl; rewrite E2; reflexivity].
     destruct (respond h2 (EvCall a [b])) eqn:R;
     [exists (Ret v)|exists (Thr v)]; exists (h2 ++ [EvCall a [b]]); intros; rewrite E1; simpl; rewrite E2; simpl; unfold fire; rewrite R; reflexivity.
+  - (* method call *)
+    destruct Hs as [Hl Hr].
+    destruct (IHe1 Hl h t) as (o1 & h1 & E1).
+    destruct o1 as [vo|vo]; [|exists (Thr vo), h1; intros; rewrite E1; reflexivity].
+    destruct (respond h1 (EvGet vo m)) as [vf|vf] eqn:RG.
+    2:{ exists (Thr vf), (h1 ++ [EvGet vo m]). intros. rewrite E1. simpl. unfold fire. rewrite RG. reflexivity. }
+    destruct (IHe2 Hr (h1 ++ [EvGet vo m]) t) as (o2 & h2 & E2).
+    destruct o2 as [va|va].
+    2:{ exists (Thr va), h2. intros. rewrite E1. simpl. unfold fire. rewrite RG. simpl. rewrite E2. reflexivity. }
+    destruct (respond h2 (EvCallT vf vo [va])) eqn:R;
+      [exists (Ret v)|exists (Thr v)]; exists (h2 ++ [EvCallT vf vo [va]]); intros; rewrite E1; simpl;
+      unfold fire; rewrite RG; simpl; rewrite E2; simpl; rewrite R; reflexivity.
 Qed.
 
 (** ** Operands that stay in place *)
@@ -88,6 +100,41 @@ Proof. reflexivity. Qed.
 Lemma eval_tmp n (s : st) : eval (Tmp n) s = (Ret (snd s n), s).
 Proof. reflexivity. Qed.
 
+Lemma eval_lit v (s : st) : eval (Lit v) s = (Ret v, s).
+Proof. reflexivity. Qed.
+
+Lemma eval_mcall1 o m a (s : st) :
+  eval (MCall1 o m a) s =
+  bind (eval o s) (fun vo s1 => bind (fire respond (EvGet vo m) s1) (fun vf s2 =>
+  bind (eval a s2) (fun va s3 => fire respond (EvCallT vf vo [va]) s3))).
+Proof. reflexivity. Qed.
+
+Lemma eval_callt1 f this a (s : st) :
+  eval (CallT1 f this a) s =
+  bind (eval f s) (fun vf s1 => bind (eval this s1) (fun vt s2 =>
+  bind (eval a s2) (fun va s3 => fire respond (EvCallT vf vt [va]) s3))).
+Proof. reflexivity. Qed.
+
+Lemma eval_get o m (s : st) : eval (Get o m) s = bind (eval o s) (fun vo s1 => fire respond (EvGet vo m) s1).
+Proof. reflexivity. Qed.
+
+Lemma eval_hoist2 n1 e1 n2 e2 b (s : st) :
+  eval (Hoist2 n1 e1 n2 e2 b) s =
+  bind (eval e1 s) (fun v1 s1 => bind (eval e2 (fst s1, upd (snd s1) n1 v1)) (fun v2 s2 =>
+  eval b (fst s2, upd (snd s2) n2 v2))).
+Proof. reflexivity. Qed.
+
+Lemma eval_hoist3 n1 e1 n2 e2 n3 e3 b (s : st) :
+  eval (Hoist3 n1 e1 n2 e2 n3 e3 b) s =
+  bind (eval e1 s) (fun v1 s1 => bind (eval e2 (fst s1, upd (snd s1) n1 v1)) (fun v2 s2 =>
+  bind (eval e3 (fst s2, upd (snd s2) n2 v2)) (fun v3 s3 => eval b (fst s3, upd (snd s3) n3 v3)))).
+Proof. reflexivity. Qed.
+
+Lemma fire_ret ev (h : hist) (t : tenv) v : respond h ev = RRet v -> fire respond ev (h, t) = (Ret v, ((h ++ [ev] : hist), t)).
+Proof. intros R. unfold fire. rewrite R. reflexivity. Qed.
+Lemma fire_thr ev (h : hist) (t : tenv) v : respond h ev = RThr v -> fire respond ev (h, t) = (Thr v, ((h ++ [ev] : hist), t)).
+Proof. intros R. unfold fire. rewrite R. reflexivity. Qed.
+
 Lemma hook_pure first args (s : st) :
   Forall pure_expr args -> eval (Hook first args) s = eval first s.
 Proof.
@@ -95,6 +142,10 @@ Proof.
   revert s1. induction F as [|a r Pa _ IH]; intros s1; [reflexivity|].
   destruct (Pa s1) as (w & Ea). rewrite Ea. simpl. apply IH.
 Qed.
+
+Variable instr : string -> bool.
+Variable lit_ok : string -> bool.
+Notation rw := (rw instr lit_ok).
 
 (** The two possible results of rewriting a sum whose operands have been rewritten. *)
 Definition lit_or_sum (x : expr) : Prop := is_lit x = true \/ exists a b, x = Add a b.
@@ -157,6 +208,12 @@ Proof.
   - (* Par *)
     simpl in Hk. destruct (rw e c) as [x' c1]. simpl in Hk.
     destruct Hk as [Hk | (a & b & Hk)]; discriminate.
+  - (* method call: the result is a call or an injected sequence *)
+    simpl in Hk. destruct (rw e1 c) as [o' c1]. destruct (rw e2 c1) as [a' c2].
+    destruct (instr m && (negb (is_lit o') || lit_ok m)).
+    + unfold rw_mcall in Hk. destruct (is_lit o'); destruct (arg_act a'); simpl in Hk;
+        destruct Hk as [Hk | (a & b & Hk)]; discriminate.
+    + simpl in Hk. destruct Hk as [Hk | (a & b & Hk)]; discriminate.
 Qed.
 
 (* Main statement: same outcome, same history, and only temporaries of the allocated range are touched. *)
@@ -186,6 +243,23 @@ Proof.
   destruct l'; simpl; try congruence; eauto.
   intros NL HR. destruct r'; simpl in *; try discriminate HR; exfalso; apply NL; reflexivity.
 Qed.
+
+Lemma arg_not_hoist r' : arg_act r' <> Hoist ->
+  (is_triv r' = true \/ exists a b, r' = Add a b) /\ ((exists v, r' = Lit v) \/ exists a b, r' = Add a b).
+Proof. destruct r'; simpl; try congruence; intros _; split; eauto. Qed.
+
+Lemma const_of_inplace e : inplace e -> ((exists v, e = Lit v) \/ exists a b, e = Add a b) -> const_expr e.
+Proof.
+  intros IP [(v & ->) | (a & b & ->)].
+  - exists v. intros s; reflexivity.
+  - destruct IP as [T | L]; [discriminate T|]. destruct (litsum_eval _ L) as (s0 & Es).
+    exists (VStr s0). intros [h0 t0]. apply Es.
+Qed.
+
+Lemma const_pure e : const_expr e -> pure_expr e.
+Proof. intros (v & H) s. exists v. apply H. Qed.
+
+Ltac step_eval := repeat first [rewrite eval_tmp | rewrite eval_lit | progress cbn [bind fst snd]].
 
 Theorem rw_correct e : src e -> correct e.
 Proof.
@@ -300,6 +374,125 @@ Proof.
     eexists; (split; [reflexivity|frame_tac]).
   - (* Par : transparent *)
     pose proof (IHe Hs c h t) as I. simpl. destruct (rw e c) as [x' c1]. exact I.
+  - (* method call *)
+    destruct Hs as [Hl Hr].
+    pose proof (IHe1 Hl c) as I1. pose proof (rw_inplace_src e1 c Hl) as P1.
+    simpl. destruct (rw e1 c) as [l' c1] eqn:Rl. simpl in I1, P1.
+    pose proof (IHe2 Hr c1) as I2. pose proof (rw_inplace_src e2 c1 Hr) as P2.
+    destruct (rw e2 c1) as [r' c2] eqn:Rr. simpl in I2, P2.
+    assert (Hc1 : c <= c1) by (destruct (I1 h t); auto).
+    assert (Hc2 : c1 <= c2) by (destruct (I2 h t); auto).
+    destruct (src_tenv e1 Hl h t) as (o1 & h1 & E1).
+    destruct (instr m && (negb (is_lit l') || lit_ok m)) eqn:INS.
+    + (* instrumented *)
+      unfold rw_mcall.
+      assert (DA : arg_act r' = Hoist \/ arg_act r' <> Hoist) by (destruct (arg_act r'); auto; right; discriminate).
+      (* the source evaluation, step by step *)
+      destruct (is_lit l') eqn:LL.
+      * (* literal receiver: it stays *)
+        assert (TL : is_triv l' = true) by (destruct l'; simpl in *; congruence).
+        destruct (P1 (or_introl TL)) as [Q1 _]. inversion Q1; subst l' c1.
+        destruct e1 as [v0| | | | | | | | | | | |]; try discriminate LL.
+        assert (o1 = Ret v0 /\ h1 = h) as [-> ->] by (specialize (E1 t); simpl in E1; inversion E1; auto).
+        destruct DA as [HA | NA].
+        -- (* argument hoisted *)
+           rewrite HA. cbn [app fst snd wrap]. split; [lia|]. intros o h' E.
+           specialize (E t). rewrite E1 in E. cbn [bind] in E.
+           rewrite eval_hoist2, eval_get, eval_lit. cbn [bind].
+           destruct (respond h (EvGet v0 m)) as [vf|vf] eqn:RG.
+           2:{ rewrite (fire_thr t RG) in E. rewrite (fire_thr t RG). cbn [bind] in *. inversion E; subst o h'. eexists; split; [reflexivity|frame_tac]. }
+           rewrite (fire_ret t RG) in E. rewrite (fire_ret t RG). cbn [bind fst snd] in *.
+           destruct (src_tenv e2 Hr (h ++ [EvGet v0 m]) t) as (o2 & h2 & E2).
+           destruct (I2 (h ++ [EvGet v0 m]) (upd t c2 vf)) as (_ & K2). destruct (K2 o2 h2 E2) as (t2 & Er & F2).
+           rewrite Er. rewrite E2 in E.
+           destruct o2 as [va|va]; cbn [bind fst snd] in *; [|inversion E; subst o h'; eexists; split; [reflexivity|frame_tac]].
+           rewrite hook_pure by (repeat constructor; try apply pure_tmp; apply pure_lit).
+           rewrite eval_callt1. step_eval. rewrite upd_same.
+           assert (Hf : upd t2 (S c2) va c2 = vf).
+           { rewrite upd_other by lia. rewrite F2 by lia. apply upd_same. }
+           rewrite Hf.
+           destruct (respond h2 (EvCallT vf v0 [va])) eqn:RC;
+             [rewrite (fire_ret t RC) in E; rewrite (fire_ret _ RC) | rewrite (fire_thr t RC) in E; rewrite (fire_thr _ RC)];
+             inversion E; subst o h'; eexists; (split; [reflexivity|frame_tac]).
+        -- (* argument in place: a literal or a sum of literals *)
+           destruct (arg_not_hoist r' NA) as [SH CK]. destruct (P2 SH) as [Q2 IP2]. inversion Q2; subst r' c2.
+           destruct (const_of_inplace IP2 CK) as (va & Ca).
+           assert (GEN : forall args, Forall pure_expr args ->
+                     forall o h', (forall t2 : tenv, eval (MCall1 (Lit v0) m e2) (h, t2) = (o, (h', t2))) ->
+                     exists t', eval (Hoist1 c (Get (Lit v0) m) (Hook (CallT1 (Tmp c) (Lit v0) e2) args)) (h, t) = (o, (h', t')) /\ frame c (S c) t t').
+           { intros args PA o h' E. specialize (E t). rewrite eval_mcall1, eval_lit in E. cbn [bind] in E.
+             rewrite eval_hoist1, eval_get, eval_lit. cbn [bind].
+             destruct (respond h (EvGet v0 m)) as [vf|vf] eqn:RG.
+             2:{ rewrite (fire_thr t RG) in E. rewrite (fire_thr t RG). cbn [bind] in *. inversion E; subst o h'. eexists; split; [reflexivity|frame_tac]. }
+             rewrite (fire_ret t RG) in E. rewrite (fire_ret t RG). cbn [bind fst snd] in *.
+             rewrite Ca in E. cbn [bind] in E.
+             rewrite (hook_pure _ _ PA). rewrite eval_callt1. step_eval. rewrite upd_same, Ca. cbn [bind].
+             destruct (respond (h ++ [EvGet v0 m]) (EvCallT vf v0 [va])) eqn:RC;
+               [rewrite (fire_ret t RC) in E; rewrite (fire_ret _ RC) | rewrite (fire_thr t RC) in E; rewrite (fire_thr _ RC)];
+               inversion E; subst o h'; eexists; (split; [reflexivity|frame_tac]). }
+           destruct (arg_act e2) eqn:AA; try congruence; cbn [app fst snd wrap]; (split; [lia|]);
+             apply GEN; repeat constructor; try apply pure_tmp; try apply pure_lit; apply const_pure; exists va; exact Ca.
+      * (* the receiver is captured *)
+        destruct DA as [HA | NA].
+        -- rewrite HA. cbn [app fst snd wrap]. split; [lia|]. intros o h' E.
+           destruct (I1 h t) as (_ & K1). destruct (K1 o1 h1 E1) as (t1 & El & F1).
+           specialize (E t). rewrite E1 in E.
+           rewrite eval_hoist3, El.
+           destruct o1 as [vo|vo]; cbn [bind fst snd] in *; [|inversion E; subst o h'; eexists; split; [reflexivity|frame_tac]].
+           rewrite eval_get, eval_tmp. cbn [bind fst snd]. rewrite upd_same.
+           destruct (respond h1 (EvGet vo m)) as [vf|vf] eqn:RG.
+           2:{ rewrite (fire_thr t RG) in E. rewrite (fire_thr _ RG). cbn [bind] in *. inversion E; subst o h'. eexists; split; [reflexivity|frame_tac]. }
+           rewrite (fire_ret t RG) in E. rewrite (fire_ret _ RG). cbn [bind fst snd] in *.
+           destruct (src_tenv e2 Hr (h1 ++ [EvGet vo m]) t) as (o2 & h2 & E2).
+           destruct (I2 (h1 ++ [EvGet vo m]) (upd (upd t1 c2 vo) (S c2) vf)) as (_ & K2). destruct (K2 o2 h2 E2) as (t2 & Er & F2).
+           rewrite Er. rewrite E2 in E.
+           destruct o2 as [va|va]; cbn [bind fst snd] in *; [|inversion E; subst o h'; eexists; split; [reflexivity|frame_tac]].
+           rewrite hook_pure by (repeat constructor; apply pure_tmp).
+           rewrite eval_callt1. step_eval. rewrite upd_same.
+           assert (Hf : upd t2 (S (S c2)) va (S c2) = vf).
+           { rewrite upd_other by lia. rewrite F2 by lia. apply upd_same. }
+           assert (Ho : upd t2 (S (S c2)) va c2 = vo).
+           { rewrite upd_other by lia. rewrite F2 by lia. rewrite upd_other by lia. apply upd_same. }
+           rewrite Hf, Ho.
+           destruct (respond h2 (EvCallT vf vo [va])) eqn:RC;
+             [rewrite (fire_ret t RC) in E; rewrite (fire_ret _ RC) | rewrite (fire_thr t RC) in E; rewrite (fire_thr _ RC)];
+             inversion E; subst o h'; eexists; (split; [reflexivity|frame_tac]).
+        -- destruct (arg_not_hoist r' NA) as [SH CK]. destruct (P2 SH) as [Q2 IP2]. inversion Q2; subst r' c2.
+           destruct (const_of_inplace IP2 CK) as (va & Ca).
+           assert (GEN : forall args, Forall pure_expr args ->
+                     forall o h', (forall t2 : tenv, eval (MCall1 e1 m e2) (h, t2) = (o, (h', t2))) ->
+                     exists t', eval (Hoist2 c1 l' (S c1) (Get (Tmp c1) m) (Hook (CallT1 (Tmp (S c1)) (Tmp c1) e2) args)) (h, t) = (o, (h', t')) /\ frame c (S (S c1)) t t').
+           { intros args PA o h' E. specialize (E t). rewrite eval_mcall1, E1 in E.
+             destruct (I1 h t) as (_ & K1). destruct (K1 o1 h1 E1) as (t1 & El & F1).
+             rewrite eval_hoist2, El.
+             destruct o1 as [vo|vo]; cbn [bind fst snd] in *; [|inversion E; subst o h'; eexists; split; [reflexivity|frame_tac]].
+             rewrite eval_get, eval_tmp. cbn [bind fst snd]. rewrite upd_same.
+             destruct (respond h1 (EvGet vo m)) as [vf|vf] eqn:RG.
+             2:{ rewrite (fire_thr t RG) in E. rewrite (fire_thr _ RG). cbn [bind] in *. inversion E; subst o h'. eexists; split; [reflexivity|frame_tac]. }
+             rewrite (fire_ret t RG) in E. rewrite (fire_ret _ RG). cbn [bind fst snd] in *.
+             rewrite Ca in E. cbn [bind] in E.
+             rewrite (hook_pure _ _ PA). rewrite eval_callt1. step_eval. rewrite Ca. cbn [bind]. rewrite upd_same.
+             rewrite upd_other by lia. rewrite upd_same.
+             destruct (respond (h1 ++ [EvGet vo m]) (EvCallT vf vo [va])) eqn:RC;
+               [rewrite (fire_ret t RC) in E; rewrite (fire_ret _ RC) | rewrite (fire_thr t RC) in E; rewrite (fire_thr _ RC)];
+               inversion E; subst o h'; eexists; (split; [reflexivity|frame_tac]). }
+           destruct (arg_act e2) eqn:AA; try congruence; cbn [app fst snd wrap]; (split; [lia|]);
+             apply GEN; repeat constructor; try apply pure_tmp; apply const_pure; exists va; exact Ca.
+    + (* not instrumented: congruence *)
+      cbn [fst snd]. split; [lia|]. intros o h' E.
+      destruct (I1 h t) as (_ & K1). destruct (K1 o1 h1 E1) as (t1 & El & F1).
+      rewrite eval_mcall1, El. specialize (E t). rewrite E1 in E.
+      destruct o1 as [vo|vo]; cbn [bind] in *; [|inversion E; subst o h'; eexists; split; [reflexivity|frame_tac]].
+      destruct (respond h1 (EvGet vo m)) as [vf|vf] eqn:RG.
+      2:{ rewrite (fire_thr t RG) in E. rewrite (fire_thr t1 RG). cbn [bind] in *. inversion E; subst o h'. eexists; split; [reflexivity|frame_tac]. }
+      rewrite (fire_ret t RG) in E. rewrite (fire_ret t1 RG). cbn [bind] in *.
+      destruct (src_tenv e2 Hr (h1 ++ [EvGet vo m]) t) as (o2 & h2 & E2).
+      destruct (I2 (h1 ++ [EvGet vo m]) t1) as (_ & K2). destruct (K2 o2 h2 E2) as (t2 & Er & F2).
+      rewrite Er. rewrite E2 in E.
+      destruct o2 as [va|va]; cbn [bind] in *; [|inversion E; subst o h'; eexists; split; [reflexivity|frame_tac]].
+      destruct (respond h2 (EvCallT vf vo [va])) eqn:RC;
+        [rewrite (fire_ret t RC) in E; rewrite (fire_ret t2 RC) | rewrite (fire_thr t RC) in E; rewrite (fire_thr t2 RC)];
+        inversion E; subst o h'; eexists; (split; [reflexivity|frame_tac]).
 Qed.
 
 End Proofs.
